@@ -376,7 +376,7 @@ PROPS = {
                       "invariant (its constructors are proved in unit headers). Not covered: interpretation of attribute values by a client "
                       "(domain matching, date parsing of Expires -- the library writes ISO 8601, which RFC 6265 clients ignore), Cookie::new's "
                       "panics on empty / non-ASCII names, one Set-Cookie field per cookie at the Response level (HeaderList::add, C14).",
-        "verus": ["cookie", "cookiereq"],
+        "verus": ["cookie", "cookiereq", "request"],
         "verus_thorough": [],
         "kani": [],
         "witness": "c15",
@@ -487,7 +487,7 @@ PROPS = {
         "design_ref": "DESIGN.md section 4 (C03)",
         "technique": "Verus on let-regions of read_http_request (repeated Content-Length / Transfer-Encoding rejected, from the proved HeaderList "
                      "lookups), on read_request's state derivation and the body readers; complete Kani harness on the body-classification "
-                     "statement (and the same statement as a Verus region for every method string); the Expect and Content-Type statements as regions too; bounded stand-in c03 for the same on concrete requests",
+                     "statement (and the same statement as a Verus region for every method string); the Expect and Content-Type statements as regions too, and the whole of read_http_request on its real text (unit request) so that the data flow between the statements is proved as well; bounded stand-in c03 for the same on concrete requests",
         "level_text": "Deductive: the statements of read_http_request that look up Content-Length and Transfer-Encoding return an error whenever "
                       "two or more fields match (any list, any case mix); the Content-Length region also decides the value: no field -> None, one field that is 1*DIGIT, "
                       "non-empty and fits 64 bits -> exactly that number, anything else -> InvalidContentLength (cl_result); the Transfer-Encoding statement answers (gzip, chunked) for exactly the lists `gzip`, `chunked`, `gzip, chunked` and the empty one and refuses "
@@ -496,13 +496,17 @@ PROPS = {
                       "known-length body read consumes at most / returns exactly len bytes (C09 unit) and is exactly the next len bytes as far as they were buffered, what followed them staying in the "
                       "connection buffer for the next request (rb_exact_clause in unit conn). Bit-precise (Kani, complete): the "
                       "classification statement maps every (chunked, gzip, expect, Option<u64> length, method) to the RFC 7230 3.3.3 class. "
+                      "The whole read_http_request (unit request): the buffer is compacted and the head read as head_post says, and on success the request handed on is request_of(head): method, url, "
+                      "content type, Expect flag, the two coding flags, the cookie map, the declared length and the body class are the functions of the head's fields stated above, applied to the field list as it "
+                      "stands when each is computed, and the header list left for the handler is the head's list minus the Content-Type, Expect and Transfer-Encoding fields; a refusal is one of "
+                      "UnsupportedTransferEncoding / MalformedCookieHeader / InvalidContentLength, exactly when the corresponding function says so. "
                       "The Expect flag is set exactly when there is one Expect field and it says 100-continue, the content type is ct_parse of the one Content-Type field (none or several: no type) -- both "
                       "functions of the header fields alone, the fields consumed. Bounded (never counted as proved): two-message pipelining, the ContentType table, via the "
                       "real read_http_request over the header cross product.",
         "level_note": "The table inside ContentType::parse is only exercised by the bounded stand-in (cookies: unit cookiereq, C15); the split/trim/filter chain that "
                       "cuts the Transfer-Encoding value into items enters through a rule-S1 stand-in (te_list is uninterpreted: the contract is about the list of items, whatever the cutting; c03 compares the real chain); the regions are statements "
                       "copied verbatim into wrapper functions (the wrapper signature is the only added text).",
-        "verus": ["framing", "conn", "body"],
+        "verus": ["framing", "conn", "body", "request"],
         "verus_thorough": [],
         "kani": ["c03"],
         "witness": ["c03", "c05"],
@@ -516,7 +520,7 @@ PROPS = {
         ],
         "not_covered": [
             "the table inside ContentType::parse (ct_parse is abstract: the property only asks for a function of the field); how the Transfer-Encoding value is cut into items (te_list is abstract)",
-            "that the handler-visible header list is the sent list minus the consumed fields (C14 covers the removal operations)",
+            "Request::id (a random number), remote_addr (passed through)",
         ],
     },
     "C06": {
@@ -602,7 +606,7 @@ PROPS = {
 # are listed in its evidence as notes (they are another property's alarm, or an unproved supporting contract).
 UNIT_OWNER = {
     "time": "C16", "chunked": "C07", "headers": "C14", "copy": "C09", "body": "C09", "conn": "C05", "head": "C01",
-    "parse": "C02", "logset": "C19", "logwriter": "C19", "jsonl": "C17", "cookie": "C15", "timefmt": "C16", "tryread": "C02", "logwrap": "C18", "cookiereq": "C15", "framing": "C03", "respguard": "C06", "respwrite": "C06", "errresp": "C20", "sse": "C11", "logorder": "C18", "respparse": "C06",
+    "parse": "C02", "logset": "C19", "logwriter": "C19", "jsonl": "C17", "cookie": "C15", "timefmt": "C16", "tryread": "C02", "logwrap": "C18", "cookiereq": "C15", "framing": "C03", "respguard": "C06", "respwrite": "C06", "errresp": "C20", "sse": "C11", "logorder": "C18", "respparse": "C06", "request": "C03",
 }
 SCOPE = {
     # total request reading also needs the parsers to be panic-free
